@@ -8,6 +8,16 @@ claimed = {
    note="Trusted: go/ssa NaiveForm translation, gvc's memory model (slices own their backing arrays; append yields a fresh array), math/bits contracts (assumed, listed in evidence), allocations succeed (len <= 2^48), the SMT solvers. Bit-level meaning of the word formulas is proved as separate pure bit-vector lemmas.",
    tech="contract-based deductive verification: own VC generator over go/ssa + z3/cvc5",
    ref="DESIGN.md section 4 (C17)"),
+ "C01": dict(
+   text="Deductive proof of the writer-side host table (hostGroup.add/pop/popN: index of the added host, earlier entries unchanged, table length a multiple of the address size, undo removes whole hosts) with contracts on the real methods; further parts of the index format (section layout, packet records, varints, lookups) are added as contracts reach them and are listed per run in the evidence under functions_under_contract. Parts of the property not under contract are not decided by this check.",
+   note="Trusted: go/ssa translation, gvc memory model, bytes.Equal contract (assumed: equal iff same length and bytes), SMT solvers. Not covered yet: reader side, payload/segmentation encoding, lookup sections, file I/O.",
+   tech="contract-based deductive verification: own VC generator over go/ssa + z3/cvc5",
+   ref="DESIGN.md section 4 (C01)"),
+ "C18": dict(
+   text="Deductive proof of the arithmetic and combination steps of the analysis on the real closures: the saturating add and increment are exact (bit-vector proof), the alternation step takes min of minima / max of maxima before adding (rule-site assertions), the suffix merge computes the longest common suffix of the two branch suffixes (loop invariant + assertion), and both walks are free of index panics for every well-formed program. The soundness of the memoised walk as a whole is not a theorem about arbitrary instruction graphs; for it a bounded stand-in (labelled bounded in the evidence, not counted as proved) compares AcceptedLength/ConstantSuffix with brute-force matching over a regex grammar.",
+   note="Assumed: syntax.Compile emits programs whose Out/Arg indices are in range (wfprog); termination of the walks is not proved. The stand-in is bounded (expression depth and word length stated in the evidence).",
+   tech="contract-based deductive verification (own VC generator + z3/cvc5); bounded stand-in for the whole walk",
+   ref="DESIGN.md section 4 (C18)"),
 }
 na = {
  "C01": "contracts not yet written in this round (planned: host table, section layout, varints) — see DESIGN 4",
